@@ -284,7 +284,7 @@ def check_aasx_files_equivalence(file_path_1: str, file_path_2: str, state_manag
 
     obj_store_2, files_2, cp_2 = check_deserialization(file_path_2, state_manager, 'second')
 
-    if state_manager.status is Status.FAILED:
+    if state_manager.status in (Status.FAILED, Status.NOT_EXECUTED):
         state_manager.add_step('Check if data in files are equal')
         state_manager.set_step_status(Status.NOT_EXECUTED)
         state_manager.add_step('Check if core properties are equal')
